@@ -1,6 +1,7 @@
 package harness
 
 import (
+	"bytes"
 	"crypto/ed25519"
 	"crypto/rand"
 	"crypto/tls"
@@ -37,6 +38,7 @@ type C11ConnScript struct {
 	GoAwayLast   int    `json:"goaway_last"`  // -1: 2^31-1; 0: zero; k>0: the id of the k-th stream seen on the connection
 	GoAwayCode   uint32 `json:"goaway_code"`
 	RefuseNth    int    `json:"refuse_nth"`              // the n-th stream seen is answered with RST_STREAM(REFUSED_STREAM) (0: none)
+	StallC2S     bool   `json:"stall_c2s,omitempty"`     // the link towards the server stops delivering at some point and resumes after MaxResponseTime has passed
 	GoAwayNotice bool   `json:"goaway_notice,omitempty"` // graceful shutdown: GOAWAY(2^31-1, NO_ERROR) first, the real one later (RFC 7540 6.8)
 	KillAfter    int    `json:"kill_after"`              // the connection may be cut once this many streams were seen (0: never)
 	Partial      bool   `json:"partial"`                 // responses are sent in two steps
@@ -79,6 +81,7 @@ type c11Attempt struct {
 	tag, conn  int
 	stream     uint32
 	step       int
+	dataRecv   int    // request DATA octets the server has received on the stream
 	disclaimed string // "" | goaway | refused
 	answered   int    // 0 none, 1 headers, 2 complete
 	status     int
@@ -107,6 +110,9 @@ type c11Conn struct {
 	goAwayLast   uint32
 	goAwayBytes  int64 // wire offset (b2a.Injected is plaintext-free; see gaDelivered)
 	noticeSent   bool
+	stalled      bool
+	stallDone    bool
+	stalledAt    time.Duration
 	gaFlushed    bool
 	gaProcessed  bool // GOAWAY flushed, every wire byte delivered, and the system was quiescent afterwards
 	killed       bool
@@ -177,7 +183,11 @@ func (w *C11World) dial(addr string) (net.Conn, error) {
 		enc: NewRefEncoder(), fw: NewFrameWriter()}
 	c.script = w.script(c.idx)
 	c.dec = hpack.NewDecoder(4096, func(f hpack.HeaderField) { c.decOut = append(c.decOut, f) })
-	c.a2b, c.b2a = NewDir("a2b"+strconv.Itoa(c.idx), 0), NewDir("b2a"+strconv.Itoa(c.idx), 0)
+	capacity := 0
+	if c.script.StallC2S {
+		capacity = 16384 // a socket buffer's worth: a write of a large body parks in the transport while the link is held up
+	}
+	c.a2b, c.b2a = NewDir("a2b"+strconv.Itoa(c.idx), capacity), NewDir("b2a"+strconv.Itoa(c.idx), 0)
 	c.cli = &Conn{Name: "cli" + strconv.Itoa(c.idx), R: c.b2a, W: c.a2b}
 	c.srv = &Conn{Name: "srv" + strconv.Itoa(c.idx), R: c.a2b, W: c.b2a}
 	w.conns = append(w.conns, c)
@@ -264,6 +274,12 @@ func (w *C11World) startCaller(k int) {
 			}
 			res := &fasthttp.Response{}
 			retry, err := w.cl.RoundTrip(w.hc, req, res)
+			// the request is the caller's again: whatever it does with it now must not reach the wire
+			if b := req.Body(); len(b) > 0 {
+				for i := range b {
+					b[i] = 'Z'
+				}
+			}
 			simrt.UserYield("rt.returned")
 			var snap *RespSnap
 			if err == nil {
@@ -324,9 +340,14 @@ func (w *C11World) parse(c *c11Conn) {
 			if c.script.MaxStreams >= 0 {
 				st = append(st, xh2.Setting{ID: xh2.SettingMaxConcurrentStreams, Val: uint32(c.script.MaxStreams)})
 			}
-			st = append(st, xh2.Setting{ID: xh2.SettingInitialWindowSize, Val: 1 << 20})
+			iw, boost := uint32(1<<20), uint32(1<<24)
+			if c.script.StallC2S {
+				// windows that never hold an upload up: the whole body is handed to the write loop in one piece
+				iw, boost = 1<<30, 1<<30
+			}
+			st = append(st, xh2.Setting{ID: xh2.SettingInitialWindowSize, Val: iw})
 			c.send(c.fw.Settings(st...))
-			c.send(c.fw.WindowUpdate(0, 1<<24))
+			c.send(c.fw.WindowUpdate(0, boost))
 		}
 	}
 	if len(b) > 0 {
@@ -379,6 +400,15 @@ func (w *C11World) parse(c *c11Conn) {
 			if f.Len > 0 {
 				c.send(c.fw.WindowUpdate(0, uint32(f.Len)))
 			}
+			if a := c.byStream[f.Stream]; a != nil {
+				a.dataRecv += f.Len
+			}
+			// callers overwrite their request body with 'Z' as soon as RoundTrip has returned (what handing the request
+			// back to a pool amounts to): the body pattern has no 'Z' in it
+			if a := c.byStream[f.Stream]; a != nil && bytes.IndexByte(f.Data, 'Z') >= 0 {
+				w.more = append(w.more, &Violation{Property: "C11", Rule: "body-read-after-return", Sig: "body-read-after-return",
+					Detail: fmt.Sprintf("request %d (connection %d stream %d): DATA on the wire carries bytes the caller wrote into its request body after RoundTrip had returned: the connection went on reading a request it had handed back", a.tag, c.idx, f.Stream)})
+			}
 		}
 	}
 }
@@ -405,7 +435,16 @@ func (w *C11World) EnvActions() []Action {
 		if len(c.rx) > c.rxSeen {
 			w.parse(c)
 		}
-		if n := len(c.a2b.Inflight); n > 0 && !c.a2b.cutDone {
+		if c.script.StallC2S && !c.stallDone && !c.killed && w.phase == 0 && w.bigUploadInProgress(c) {
+			acts = append(acts, Action{Name: "stall c" + itoa(c.idx), Env: true, Weight: 6, Run: func() {
+				c.stalled, c.stallDone, c.stalledAt = true, true, w.sim.Now()
+				w.Probes["stall-c2s"]++
+			}})
+		}
+		if c.stalled && w.phase >= 1 && w.sim.Now() >= c.stalledAt+w.stallFor() {
+			acts = append(acts, Action{Name: "unstall c" + itoa(c.idx), Env: true, Weight: 20, Run: func() { c.stalled = false }})
+		}
+		if n := len(c.a2b.Inflight); n > 0 && !c.a2b.cutDone && !c.stalled {
 			acts = append(acts, Action{Name: "wire c" + itoa(c.idx) + " c2s all(" + itoa(n) + ")", Run: func() { c.a2b.Deliver(n) }, Env: true, Weight: 20})
 			if w.plan.Frag && n > 1 {
 				k := 1 + int(Mix(uint64(w.sim.Steps), uint64(n))%uint64(n-1))
@@ -459,6 +498,9 @@ func (w *C11World) EnvActions() []Action {
 			s := s
 			if a.disclaimed != "" || a.answered == 2 {
 				continue
+			}
+			if c.script.StallC2S && a.tag >= 0 && a.tag < len(w.plan.Reqs) && a.dataRecv < w.plan.Reqs[a.tag].Body {
+				continue // on a link that may stall, the server answers an upload once it has all of it
 			}
 			if c.script.RefuseNth == i+1 && a.answered == 0 {
 				acts = append(acts, Action{Name: "refuse c" + itoa(c.idx) + "/" + itoa(s), Env: true, Weight: 10, Run: func() {
@@ -530,6 +572,13 @@ func (w *C11World) atQuiescence() *Violation {
 	}
 	mk := func(rule, sig, d string) *Violation {
 		return &Violation{Property: "C11", Rule: rule, Sig: sig, Detail: d}
+	}
+	for _, c := range w.conns {
+		if c.stalled {
+			// a request that was failed and sent again may be sitting in the stalled link, invisible to any server:
+			// "still waiting" cannot be told from "moved on" at this quiescence
+			return nil
+		}
 	}
 	for _, c := range w.conns {
 		if !c.gaProcessed {
@@ -613,7 +662,7 @@ func (w *C11World) finalRules(mk func(rule, sig, d string) *Violation) {
 		// (c) complete answers on streams at or below last-stream-id are delivered as they were sent
 		last := at[len(at)-1]
 		// (a kill may have cut the answer on the wire: only connections that were never killed are judged here)
-		if last.answered == 2 && last.disclaimed == "" && !w.conns[last.conn].killedByPlan {
+		if last.answered == 2 && last.disclaimed == "" && !w.conns[last.conn].killedByPlan && !w.conns[last.conn].stallDone {
 			if c.finalErr != nil {
 				conn := w.conns[last.conn]
 				ga := "no GOAWAY"
@@ -651,7 +700,7 @@ func GenC11(r *RNG) *C11Plan {
 	for k := 0; k < n; k++ {
 		q := C11Req{Method: Pick(r, "GET", "GET", "POST"), StartAfter: -1}
 		if q.Method == "POST" {
-			q.Body = Pick(r, 1, 100, 5000)
+			q.Body = Pick(r, 1, 100, 5000, 300000, 300000)
 		}
 		if k > 0 && r.Intn(4) == 0 {
 			q.StartAfter = r.Intn(k)
@@ -677,6 +726,7 @@ func GenC11(r *RNG) *C11Plan {
 			s.KillAfter = 1 + r.Intn(n)
 		case 5:
 			// plain conforming server
+			s.StallC2S = r.Intn(2) == 0
 		}
 		if k == nc-1 {
 			// the last script repeats for every further connection: keep it benign so that the run ends
@@ -690,6 +740,32 @@ func GenC11(r *RNG) *C11Plan {
 	p.SelSeed = r.Uint64()
 	p.Frag = r.Intn(3) == 0
 	p.MaxSteps = 400000
+	return p
+}
+
+// GenC11Stalled: large uploads on a link that stops delivering in the middle of one and resumes after MaxResponseTime
+// has passed. The timeout fires while the write loop is inside the transport with the caller's body; whatever
+// RoundTrip then reports, the request is the caller's again the moment it returns, and the callers here overwrite it
+// at once.
+func GenC11Stalled(r *RNG) *C11Plan {
+	p := &C11Plan{Family: "c11-stalled", MaxResponseTime: time.Second, PingInterval: time.Minute}
+	n := 1 + r.Intn(2)
+	for k := 0; k < n; k++ {
+		// larger than the client's write buffer (16 MiB): only then is part of the body still unread, in the caller's
+		// memory, while the write loop is parked in the transport
+		q := C11Req{Method: "POST", Body: 17 << 20, StartAfter: -1}
+		if k > 0 {
+			q = C11Req{Method: "GET", StartAfter: -1}
+		}
+		p.Reqs = append(p.Reqs, q)
+	}
+	p.Conns = []C11ConnScript{{MaxStreams: 100, StallC2S: true}}
+	p.Mask = genMask(r)
+	p.PoolPol = r.Intn(3)
+	p.Strategy = genStrategy(r)
+	p.SelSeed = r.Uint64()
+	p.Frag = r.Intn(3) == 0
+	p.MaxSteps = 1500000
 	return p
 }
 
@@ -774,4 +850,24 @@ func RunC11(plan *C11Plan, tape *Tape, searchSeed uint64) *RunResult {
 	res.Summary = fmt.Sprintf("conns=%d callers=%d", len(w.conns), len(w.callers))
 	sim.finish(res)
 	return res
+}
+
+// stallFor: how long a stalled link stays stalled: past MaxResponseTime, so that the timeout fires while a write is parked.
+func (w *C11World) stallFor() time.Duration {
+	if w.plan.MaxResponseTime > 0 {
+		return w.plan.MaxResponseTime + time.Second
+	}
+	return 2 * time.Second
+}
+
+// bigUploadInProgress: the server has seen the HEADERS of a request with a large body and not yet all of the body, so
+// the client's write loop is (or is about to be) inside the transport with that body.
+func (w *C11World) bigUploadInProgress(c *c11Conn) bool {
+	for _, s := range c.streams {
+		a := c.byStream[s]
+		if a.tag >= 0 && a.tag < len(w.plan.Reqs) && w.plan.Reqs[a.tag].Body >= 100000 && a.dataRecv < w.plan.Reqs[a.tag].Body {
+			return true
+		}
+	}
+	return false
 }
